@@ -29,17 +29,27 @@ FMT = b"%{tid}|%{tid_kernel}|%{snoopy_threads}|%{filename}|%{login}|%{cmdline}"
 ALL_DS = b"".join(b"%{" + n.encode() + (b":1" if n == "cgroup" else (b":HOME" if n == "env" else b"")) + b"}|" for n in gen.ALL_SOURCES)
 
 
+CHAINS = {"none": None, "pass": b"noop;exclude_uid:7;only_uid:0", "droplast": b"noop;exclude_uid:7;only_uid:4242"}
+
+
 def scenario(out, shape, sched, fmt=FMT):
-    nt, nc = shape
-    ini = gen.render_ini([(b"output", b"file:" + out.encode() + b"/log"), (b"message_format", fmt)])
-    ops = [drv.op("x", out + "/log"), drv.op("W", "log", out + "/log"), drv.op("C", ini), drv.op_env([b"LOGNAME=lg", b"HOME=/root"])]
+    nt, nc = shape[0], shape[1]
+    okind = shape[2] if len(shape) > 2 else "file"
+    chain = CHAINS[shape[3]] if len(shape) > 3 else None
+    oval = {"file": b"file:" + out.encode() + b"/log", "stdout": b"stdout", "stderr": b"stderr", "socket": b"socket:" + out.encode() + b"/sock"}[okind]
+    opts = [(b"output", oval), (b"message_format", fmt)]
+    if chain:
+        opts.append((b"filter_chain", chain))
+    ini = gen.render_ini(opts)
+    ops = [drv.op("x", out + "/log"), drv.op("W", "log", out + "/log"), drv.op("S", 1, "pipe"), drv.op("S", 2, "pipe"), drv.op("K", "sock", out + "/sock"),
+           drv.op("C", ini), drv.op_env([b"LOGNAME=lg", b"HOME=/root"])]
     flat = [x for p in sched for x in p]
     ops.append(drv.op("z", nt, *flat))
     for t in range(nt):
         for k in range(nc):
             ops.append(drv.op_exec("e" if (t + k) % 2 == 0 else "v", b"/bin/t%dc%d" % (t, k), [b"t%dc%d" % (t, k), b"arg-%d-%d" % (t, k)], [b"E=%d" % t],
                                    ret=-1, err=2, tno=t, callno=k))
-    ops += [drv.op_exec("e", b"/bin/lone", [b"lone", b"call"], [], ret=-1, err=2), drv.op("G")]
+    ops += [drv.op_exec("e", b"/bin/lone", [b"lone", b"call"], [], ret=-1, err=2), drv.op("L"), drv.op("G")]
     return ops
 
 
@@ -61,10 +71,12 @@ def interleaves(trace):
 
 
 def run_sched(d, shape, sched, tsan=False):
-    nt, nc = shape
+    nt, nc = shape[0], shape[1]
+    okind = shape[2] if len(shape) > 2 else "file"
+    chaink = shape[3] if len(shape) > 3 else "none"
     res = d.scenario(scenario(d.out, shape, sched))
     reports = d.sanitizer_reports()
-    what = "%d threads x %d calls, preemptions %s" % (nt, nc, sched)
+    what = "%d threads x %d calls, output %s, chain %s, preemptions %s" % (nt, nc, okind, chaink, sched)
     Z = res.of("z")
     if res.timedout:
         raise Failure("calls did not complete (%s)" % what, {"result": res.describe()}, key="hang")
@@ -89,8 +101,19 @@ def run_sched(d, shape, sched, tsan=False):
     ids = {}
     for R in Rs[:-1]:
         ids[(int(R.f[5]), int(R.f[6]))] = (R.f[7], R.f[8])
-    content = drv.parse_dump(res.of("G")[-1])["log"][2] or b""
-    lines = content.split(b"\n")[:-1]
+    dump = drv.parse_dump(res.of("G")[-1])
+    if okind == "socket":
+        lines = list(dump["sock"][2])
+    else:
+        content = dump[{"file": "log", "stdout": "fd1", "stderr": "fd2"}[okind]][2] or b""
+        lines = content.split(b"\n")[:-1]
+        if content and not content.endswith(b"\n"):
+            lines.append(content.split(b"\n")[-1])
+    if chaink == "droplast":
+        # every call is dropped by the last filter of the chain: nothing at all may be logged
+        if lines:
+            raise Failure("call logged although the chain drops it when evaluated alone (%s)" % what, {"records": [l[:120] for l in lines[:4]]}, key="chain")
+        return trace, int(Z[0].f[1])
     if len(lines) != nt * nc + 1:
         raise Failure("%d records for %d calls (%s)" % (len(lines), nt * nc + 1, what), {"records": lines[:8]}, key="records")
     seen = set()
@@ -141,7 +164,8 @@ def worker(args):
         try:
             trace, steps = run_sched(d, shape, sched, tsan=(variant == "ts-tsan"))
             h = hashlib.sha1((variant + trace).encode()).hexdigest()[:16]
-            local.count(h if interleaves(trace) else None, [variant, "shape:%dx%d" % shape, "preemptions:%d" % len(sched)],
+            local.count(h if interleaves(trace) else None, [variant, "shape:%dx%d" % tuple(shape[:2]), "preemptions:%d" % len(sched)] +
+                        (["out:" + shape[2], "chain:" + shape[3]] if len(shape) > 2 else []),
                         sample={"variant": variant, "shape": list(shape), "preemptions": [list(p) for p in sched], "trace_head": trace[:80]})
         except Failure as f:
             local.count("fail:" + f.key, [variant, "violating"], sample=case)
@@ -224,8 +248,12 @@ def main():
     rng = random.Random(ctx.seed)
     jobs = []
     shapes = [(2, 1), (2, 2), (3, 1)] if ctx.quick else [(2, 1), (2, 2), (3, 1), (2, 3), (3, 2), (4, 1), (4, 3)]
+    # other outputs and filter chains (every libc call the library makes is a scheduling point as well)
+    shapes += [(2, 1, "stdout", "none"), (2, 1, "socket", "pass"), (2, 1, "file", "droplast"), (2, 1, "stderr", "droplast")]
+    if not ctx.quick:
+        shapes += [(3, 1, "stdout", "pass"), (2, 2, "file", "droplast"), (2, 2, "socket", "none"), (3, 1, "stderr", "none")]
     for shape in shapes:
-        nt, nc = shape
+        nt, nc = shape[0], shape[1]
         try:
             S = steps_of(ctx, builds, shape)
         except Failure as f:
@@ -234,7 +262,7 @@ def main():
             if len(ctx.violations) < 2:
                 ctx.violation({"variant": "ts-plain", "shape": list(shape), "sched": []}, f.observed, f.expected, "[ts-plain] " + f.what)
             continue
-        ctx.extra["steps_%dx%d" % shape] = S
+        ctx.extra["steps_" + "x".join(str(x) for x in shape)] = S
         singles = [[(s, t)] for s in range(1, S + 1) for t in range(nt)]
         plain = [[]] + singles
         if shape == (2, 1):
@@ -249,7 +277,10 @@ def main():
         for sc in plain:
             jobs.append(("ts-plain", shape, sc))
         # ThreadSanitizer build: the default run, every single preemption of the smallest shapes, samples otherwise
-        ts = [[]] + (singles if shape in ((2, 1),) else rng.sample(singles, min(len(singles), 40 if ctx.quick else 400)))
+        if len(shape) > 2 and ctx.quick:
+            ts = [[]]
+        else:
+            ts = [[]] + (singles if shape in ((2, 1),) else rng.sample(singles, min(len(singles), 40 if ctx.quick else 400)))
         if not ctx.quick and shape == (2, 1):
             ts += rng.sample(pairs, 1500)
         for sc in ts:
